@@ -90,6 +90,15 @@ def make_renderers(env: "Env") -> Dict[str, Dict[str, Any]]:
                 return tag_text(_fl, model)
             klass.model_renderers[getattr(C, tn)] = handler
         out[lang]["sub"] = klass
+        # "nodb": a custom renderer with handlers for every model type but WITHOUT render_db (BaseRenderer's
+        # raises NotImplementedError): elements render through it, the database-level text is refused
+        fl = f"nodb{lang}"
+        klass = type(f"NoDb{lang.upper()}Renderer", (Base,), {"model_renderers": {}, "__module__": "verif.sim"})
+        for tn in TAGGED_TYPES_FULL:
+            def handler(model, _fl=fl):
+                return tag_text(_fl, model)
+            klass.model_renderers[getattr(C, tn)] = handler
+        out[lang]["nodb"] = klass
     return out
 
 
